@@ -15,6 +15,10 @@ namespace c04
         K_CPLX_STORE, // real ++ imag register bytes from reg_in -> interleaved array
         K_GATHER, // lanes elements base[idx[i]] -> reg_out
         K_SCATTER, // reg_in lanes -> base[idx[i]]
+        K_CVT_LOAD, // converting load: lanes elements of type U (mem_elem bytes each) at p -> batch<T>: raw register bytes in reg_out
+        K_CVT_STORE, // converting store: batch<T> from reg_in -> lanes elements of type U at p
+        K_CVT_GATHER, // converting gather: batch<T>::gather(U const*, index)
+        K_CVT_SCATTER, // converting scatter: batch<T>::scatter(U*, index)
         K_BROADCAST, // broadcast of the first element of reg_in -> reg_out
         K_CTOR, // element-list constructor from the elements of reg_in -> reg_out
         K_GET, // get(i) of the register made from reg_in -> aux (lanes elements)
@@ -44,6 +48,10 @@ namespace c04
         int align_req; // alignment the pointer contract demands (A::alignment() for aligned forms, alignof(element) otherwise)
         bool is_float;
         void (*fn)(Ctx&);
+        // converting forms only: the element type in memory (U); register lanes stay `tname`/`elem`
+        const char* mem_tname = nullptr;
+        int mem_elem = 0;
+        bool idx_unsigned = false; // gather/scatter with an unsigned index batch
     };
 
 #define C04_DECL(NAME) void register_##NAME(std::vector<OpEntry>&);
